@@ -1,5 +1,6 @@
 import OrsoVerif.Lemmas.Profile
 import OrsoVerif.Lemmas.ProfileOrder
+import OrsoVerif.Lemmas.ProfileTime
 /-!
 # C15 — Column profiles report exact counts, extremes and frequencies
 
@@ -97,6 +98,24 @@ example :
 
 /-! ## how the per-type profilers are wired to the helpers -/
 
+/-- **What `DateProfiler` copies from the numeric profile of the epoch seconds** (the generated table of its
+`self.profile.F = numeric_profile.G` statements): minimum from minimum, maximum from maximum, the most-frequent
+list (values and counts) and the sketch; count and missing are its own.  (Swap or drop one of the two extreme
+copies and this stops checking.  The order and transition indicators are not copied on the repaired tree; the
+statement does not cover them for temporal columns, so copying them too changes nothing here.) -/
+theorem temporal_copies_expressions [DecidableEq α] (p : Ops α) (xs : List (Option α)) :
+    (profileTemporal p xs).core = { (profileNumeric p xs).core with
+      count := xs.length, missing := xs.length - (present xs).length } ∧
+    (profileTemporal p xs).mfv = (profileNumeric p xs).mfv ∧
+    (profileTemporal p xs).kmv = (profileNumeric p xs).kmv := by
+  have hx : ∀ c : Core, copiedExtreme c "minimum" = c.minimum ∧ copiedExtreme c "maximum" = c.maximum :=
+    fun c => ⟨rfl, rfl⟩
+  have hc : copiesField "most_frequent_values" = true ∧ copiesField "most_frequent_counts" = true ∧
+      copiesField "kmv_hashes" = true := by
+    decide
+  obtain ⟨a, b, c⟩ := hc
+  refine ⟨?_, ?_, ?_⟩ <;> simp [profileTemporal, hx, a, b, c]
+
 /-- The shape of every typed profiler's core, whatever the generated sources of the extremes are. -/
 theorem profilers_core_shape [DecidableEq α] (p : Ops α) (cut : α → α) (xs : List (Option α)) :
     (profileNumeric p xs).core
@@ -112,7 +131,8 @@ theorem profilers_core_shape [DecidableEq α] (p : Ops α) (cut : α → α) (xs
     | cons x xs ih => cases x <;> simp_all [present]
   refine ⟨?_, ?_, ?_⟩
   · cases hp : present xs <;> simp [profileNumeric, orderAndTransitions, hp]
-  · cases hp : present xs <;> simp [profileTemporal, profileNumeric, orderAndTransitions, hp]
+  · rw [(temporal_copies_expressions p xs).1]
+    cases hp : present xs <;> simp [profileNumeric, orderAndTransitions, hp, coreFrom]
   · unfold profileText
     cases hp : present xs with
     | nil =>
@@ -154,10 +174,12 @@ theorem profilers_wiring [DecidableEq α] (p : Ops α) (cut : α → α) (xs : L
   · rw [h3]; exact (extremes_source _ _ _).2
   · intro hne
     have hcut : Gen.ProfileExpr.textHashBeforeCut = true := rfl
+    obtain ⟨_, tm, tk⟩ := temporal_copies_expressions p xs
+    rw [tm, tk]
     cases hp : present xs with
     | nil => exact absurd hp hne
     | cons v vs =>
-      simp [profileNumeric, profileTemporal, profileText, orderAndTransitions, hp, hcut]
+      simp [profileNumeric, profileText, orderAndTransitions, hp, hcut]
 
 /-! ## the generated pieces of `get_kvm_hashes`, `find_mfvs` and `DataFrame.to_batches` -/
 
@@ -1021,5 +1043,161 @@ theorem text_additive (p : Ops String) (hle : p.le = strLe) (hkey : p.key = stri
       (profilers_wiring p cutText b).2.2.1, List.map_append, hle, hkey]
     exact add_core _ _ instants_and_text_ordered.2.2.2.1 text_key_monotone _ _
   exact ⟨hadd a b, batched_eq_whole _ hadd xs hne⟩
+
+/-! ## temporal cells: "instants as epoch seconds" (`DateProfiler`, `Model/ProfileTime.lean`) -/
+
+/-- Non-vacuity: the last microsecond of year 9999, the first second of year 1 seen from UTC+05:30, a pandas
+Timestamp of microsecond resolution beyond 64-bit nanoseconds are covered cells; and the conversion with the
+chains of the repaired tree (written out here, so that this example never depends on the source) reports the
+epoch seconds of a column holding them, a null, a `datetime64[D]` before the epoch and the microsecond after
+1969-12-31T23:59:59. -/
+example :
+    (DateCell.civil ⟨9999, 12, 31, 23, 59, 59, 999999⟩ 0).inRange ∧
+    (DateCell.civil ⟨1, 1, 1, 5, 30, 0, 0⟩ 330).inRange ∧
+    (DateCell.stamp .us 253402300799999999).inRange ∧
+    dateSecondsWith [.dt .s, .i64] [.i64, .dt .ns, .dt .s, .i64] ["AttributeError", "OverflowError"] (-9223372036854775808)
+        [some (.civil ⟨9999, 12, 31, 23, 59, 59, 999999⟩ 0), none, some (.civil ⟨1, 1, 1, 5, 30, 0, 0⟩ 330),
+        some (.stamp .us 253402300799999999), some (.ticks .D (-1)), some (.civil ⟨1969, 12, 31, 23, 59, 59, 1⟩ 0)]
+      = .ok [some 253402300799, none, some (-62135596800), some 253402300799, some (-86400), some (-1)] := by
+  refine ⟨⟨by decide, by decide, by decide⟩, ⟨by decide, by decide, by decide⟩, ⟨by decide, by decide⟩, by rfl⟩
+
+set_option linter.unusedSimpArgs false in
+/-- **The conversions of `DateProfiler` as they stand in the source.**  The general path
+(`numpy.array(column_data, dtype=…)` and the `.astype(…)` calls that follow: `datePlainChain`) leaves the whole
+seconds of every instant within a day of year 1..9999; the pandas path (`datePandasChain`) leaves the whole
+seconds of every `.value` a Timestamp can have; both exceptions `.value` can raise lead to the general path
+(`dateFallbackCaught`); the null sentinel is not a second of that range.  (A nanosecond intermediate on the
+general path — `dtype="datetime64[ns]"` — wraps outside 1677..2262 and this theorem stops checking; so does a
+minute or millisecond target, an uncaught `OverflowError`, a sentinel of 0.) -/
+theorem date_conversion_expressions :
+    (∀ t, instantLo ≤ t → t < instantHi → runChain Gen.ProfileTime.datePlainChain t = t / 1000000000) ∧
+    (∀ v, -9223372036854775808 ≤ v → v ≤ 9223372036854775807 →
+      runChain Gen.ProfileTime.datePandasChain v = v / 1000000000) ∧
+    Gen.ProfileTime.dateFallbackCaught.contains "OverflowError" = true ∧
+    Gen.ProfileTime.dateFallbackCaught.contains "AttributeError" = true ∧
+    (Gen.ProfileTime.dateSentinel < -62135596800 - 86400 ∨ 253402300799 + 86400 ≤ Gen.ProfileTime.dateSentinel) := by
+  refine ⟨?_, ?_, by decide, by decide, by decide⟩
+  · intro t h1 h2
+    simp only [Gen.ProfileTime.datePlainChain, runChain, List.foldl, castFirst, castStep, recast, TUnit.nanos,
+      wrap64, instantLo, instantHi] at *
+    omega
+  · intro v h1 h2
+    simp only [Gen.ProfileTime.datePandasChain, runChain, List.foldl, castFirst, castStep, recast, TUnit.nanos,
+      wrap64] at *
+    omega
+
+/-- **Instants as epoch seconds, for every date-time of year 1..9999.**  Whatever mixture of `date`,
+`datetime` (naive or with a UTC offset), `numpy.datetime64` and `pandas.Timestamp` cells and nulls a DATE /
+TIMESTAMP column holds, in any order and of any length: `DateProfiler` does not raise, a null stays a null,
+and every other cell is handed to the numeric profiler as the whole seconds elapsed since 1970-01-01T00:00:00Z
+(floor of the exact instant). -/
+theorem temporal_epoch_seconds (cells : List (Option DateCell)) (h : ∀ c ∈ present cells, c.inRange) :
+    dateSeconds cells = .ok (cells.map (Option.map DateCell.trueSeconds)) := by
+  obtain ⟨h1, h2, h3, h4, h5⟩ := date_conversion_expressions
+  exact dateSecondsWith_spec _ _ _ _ h1 h2 h3 h4 h5 cells h
+
+/-- **What "epoch seconds" are**, in exact integer arithmetic (the calendar of C08): for a valid calendar
+date-time of year 1..9999 at UTC offset `off` minutes, the days since 1970-01-01 by CPython's proleptic
+Gregorian ordinal, times 86400, plus the time of day, minus the offset — microseconds floored away; naive
+date-times range over exactly 0001-01-01T00:00:00 (−62135596800) .. 9999-12-31T23:59:59 (253402300799).  A
+`datetime64` / Timestamp of `n` seconds is `n`, of `n` days `86400·n`, of `n` nanoseconds `⌊n/10⁹⌋`. -/
+theorem calendar_epoch_seconds (dt : Iso.DateTime) (off : Int) (h : Iso.validDateTime dt = true) :
+    (DateCell.civil dt off).trueSeconds
+      = ((Iso.toOrdinal dt.year dt.month dt.day : Int) - 719163) * 86400
+        + dt.hour * 3600 + dt.minute * 60 + dt.second - 60 * off ∧
+    -62135596800 ≤ (DateCell.civil dt 0).trueSeconds ∧ (DateCell.civil dt 0).trueSeconds ≤ 253402300799 ∧
+    (∀ n : Int, (DateCell.ticks .s n).trueSeconds = n ∧ (DateCell.ticks .D n).trueSeconds = 86400 * n ∧
+      (DateCell.stamp .ns n).trueSeconds = n / 1000000000) := by
+  have hr := toEpoch_range dt h
+  refine ⟨?_, ?_, ?_, ?_⟩
+  · rw [civil_trueSeconds dt off h]; rfl
+  · rw [civil_trueSeconds dt 0 h]; omega
+  · rw [civil_trueSeconds dt 0 h]; omega
+  · intro n
+    simp only [DateCell.trueSeconds, DateCell.instant, TUnit.nanos]
+    omega
+
+/-- **Temporal minimum and maximum are the true extremes, as epoch seconds** — the clause of the statement,
+from the cells to the profile: for a column of covered cells `DateProfiler` reports count = rows, missing =
+nulls, no extremes when every cell is null, and otherwise the epoch seconds of a cell no cell precedes and of
+a cell no cell follows. -/
+theorem temporal_extremes_epoch_seconds (p : Ops Int) (hle : p.le = intLe) (hkey : p.key = id)
+    (cells : List (Option DateCell)) (h : ∀ c ∈ present cells, c.inRange) :
+    ∃ prof, profileDateCells p cells = .ok prof ∧
+      prof.core.count = cells.length ∧ prof.core.missing = cells.length - (present cells).length ∧
+      (present cells = [] → prof.core.minimum = none ∧ prof.core.maximum = none) ∧
+      (present cells ≠ [] → ∃ lo ∈ present cells, ∃ hi ∈ present cells,
+        (∀ c ∈ present cells, lo.trueSeconds ≤ c.trueSeconds ∧ c.trueSeconds ≤ hi.trueSeconds) ∧
+        prof.core.minimum = some lo.trueSeconds ∧ prof.core.maximum = some hi.trueSeconds) := by
+  have hp : ∀ l : List (Option DateCell),
+      present (l.map (Option.map DateCell.trueSeconds)) = (present l).map DateCell.trueSeconds := by
+    intro l
+    induction l with
+    | nil => rfl
+    | cons a l ih => cases a <;> simp_all [present]
+  refine ⟨profileTemporal p (cells.map (Option.map DateCell.trueSeconds)), ?_, ?_, ?_, ?_, ?_⟩
+  · simp only [profileDateCells, temporal_epoch_seconds cells h]; rfl
+  all_goals rw [(profilers_wiring p id _).2.1, hle, hkey]
+  · simp [core, coreFrom]
+  · simp [core, coreFrom, hp]
+  · intro he
+    exact (minmax_true intLe id instants_and_text_ordered.1 _).1 (by rw [hp, he]; rfl)
+  · intro hne
+    obtain ⟨lo, hlo, hi, hhi, hall, hmin, hmax⟩ :=
+      (minmax_true intLe id instants_and_text_ordered.1 (cells.map (Option.map DateCell.trueSeconds))).2
+        (by rw [hp]; simpa using hne)
+    rw [hp] at hlo hhi hall
+    obtain ⟨clo, hclo, rfl⟩ := List.mem_map.mp hlo
+    obtain ⟨chi, hchi, rfl⟩ := List.mem_map.mp hhi
+    refine ⟨clo, hclo, chi, hchi, ?_, hmin, hmax⟩
+    intro c hc
+    have := hall c.trueSeconds (List.mem_map.mpr ⟨c, hc, rfl⟩)
+    simpa [intLe] using this
+
+/-- **Why the intermediate unit matters**: a general path that builds `datetime64[ns]` first (both paths
+through one nanosecond array) leaves the whole seconds of an instant *exactly when* the instant fits 64-bit
+nanoseconds, 1677-09-21T00:12:43.145224192 .. 2262-04-11T23:47:16.854775807; the customary end-of-time date
+9999-12-31 comes out as −4852202632 (1816-03-29), 1600-01-01 as a day of 2184. -/
+theorem nanosecond_intermediate_exact_iff (t : Int) :
+    runChain [.dt .ns, .dt .s, .i64] t = t / 1000000000
+      ↔ (-9223372036854775808 ≤ t ∧ t ≤ 9223372036854775807) := by
+  simp only [runChain, List.foldl, castFirst, castStep, recast, TUnit.nanos, wrap64]
+  constructor <;> intro h <;> omega
+
+theorem nanosecond_intermediate_wraps :
+    dateSecondsWith [.dt .ns, .dt .s, .i64] Gen.ProfileTime.datePandasChain Gen.ProfileTime.dateFallbackCaught
+        Gen.ProfileTime.dateSentinel
+        [some (.civil ⟨9999, 12, 31, 0, 0, 0, 0⟩ 0), some (.civil ⟨1600, 1, 1, 0, 0, 0, 0⟩ 0), some (.civil ⟨2021, 6, 1, 0, 0, 0, 0⟩ 0)]
+      = .ok [some (-4852202632), some 6770648073, some 1622505600] ∧
+    (DateCell.civil ⟨9999, 12, 31, 0, 0, 0, 0⟩ 0).trueSeconds = 253402214400 ∧
+    (DateCell.civil ⟨1600, 1, 1, 0, 0, 0, 0⟩ 0).trueSeconds = -11676096000 := by
+  refine ⟨by rfl, by rfl, by rfl⟩
+
+/-! ## `TableProfile.__add__` around the column sums: a batch without rows -/
+
+/-- **Adding the profile of a batch without rows** (a cut at 0 or at the end; the table profile of such a batch has
+no columns, so `TableProfile.__add__` puts a stand-in `ColumnProfile(name, type, count, missing)` in its place — the
+stand-in comes from the source, `Gen.ProfileTable`): with no rows on the right the sum of a column is the column's
+own profile, with no rows on the left likewise (the columns only the right side has are kept), and with both
+sides present it is `ColumnProfile.__add__` — in each case the profile of the concatenation.  (The pinned tree
+used the rows of the *other* side for the stand-in and dropped the columns only the right side has:
+`profile(rows) + profile(no rows)` doubled count and missing, `profile(no rows) + profile(rows)` had no columns.) -/
+theorem table_add_expressions (le : α → α → Bool) (key : α → Int) (h : TotalPreorder le) (hm : Monotone le key)
+    (a b : List (Option α)) :
+    addColumnOpt a.length 0 (some (core le key a)) none = some (core le key (a ++ [])) ∧
+    addColumnOpt 0 b.length none (some (core le key b)) = some (core le key ([] ++ b)) ∧
+    addColumnOpt a.length b.length (some (core le key a)) (some (core le key b)) = some (core le key (a ++ b)) := by
+  have hnil : core le key ([] : List (Option α)) = standIn (0, 0) := by
+    simp [core, coreFrom, standIn, present, pickExtreme, minBy, maxBy]
+  have ha := add_core le key h hm a []
+  have hb := add_core le key h hm [] b
+  rw [hnil] at ha hb
+  have hk : Gen.ProfileTable.keepsRightOnly = true := rfl
+  refine ⟨?_, ?_, ?_⟩
+  · simp only [addColumnOpt, Gen.ProfileTable.rightMissing]
+    rw [ha]
+  · simp only [addColumnOpt, Gen.ProfileTable.leftMissing, hk, if_true]
+    rw [hb]
+  · simp only [addColumnOpt]; rw [add_core le key h hm a b]
 
 end C15
